@@ -345,6 +345,12 @@ func extractResources(p *pkgs, f *facts) {
 		}
 	}
 
+	if kill != nil {
+		ok, why := killCleanupWheneverRunner(kill)
+		b["killCleanupWheneverRunner"] = ok
+		note["killCleanupWheneverRunner"] = why
+	}
+
 	// ---- host: protocol clients' Close
 	gclose := p.fn("GRPCClient", "Close")
 	bclose := p.fn("GRPCBroker", "Close")
@@ -641,6 +647,8 @@ func extractResources(p *pkgs, f *facts) {
 		"grpcCloseShutsDown", "rpcCloseCallsQuit", "shutdownStopsServer", "stopStopsGrpcServer", "stopClosesBroker",
 		"stopClosesBrokerFirst", "brokerCloseClosesListeners", "serveDefersListenerClose", "muxerCloseClosesWrappedListener",
 		"acceptAndServeClosesListener", "acceptAndServeEndsOnBrokerDone", "brokeredListenerIsRmListener", "listenerRemovesFile"}
+	// (goSites is printed between these and the facts added later, in the order of the Lean structure)
+	orderTail := []string{"killCleanupWheneverRunner"}
 	var fields []string
 	js := map[string]interface{}{}
 	for _, k := range order {
@@ -648,12 +656,171 @@ func extractResources(p *pkgs, f *facts) {
 		js[k] = b[k]
 	}
 	fields = append(fields, "goSites := ["+strings.Join(cs, ", ")+"]")
+	for _, k := range orderTail {
+		fields = append(fields, fmt.Sprintf("%s := %s", k, leanBool(b[k])))
+		js[k] = b[k]
+	}
 	f.lean = append(f.lean, "def resources : Resources.Params :=\n  { "+strings.Join(fields, ",\n    ")+" }")
 	js["goSites"] = descs
 	js["goSitesUnknownToModel"] = unknown
 	js["goSiteCount"] = len(descs)
 	js["notes"] = note
 	f.set("resources", js)
+}
+
+// killCleanupWheneverRunner: is the deferred clean-up of Client.Kill (the `defer func(){…}()` whose body
+// calls c.clientWaitGroup.Wait / os.RemoveAll) registered whenever a runner was recorded, and does it reach
+// both calls on every path?  Syntactic and conservative:
+//   - the defer is a top-level statement of Kill;
+//   - every `return` in the statements above it sits directly in a top-level `if` without init/else whose
+//     condition is a disjunction of only `R == nil` and `R.ID() == ""`, R a variable assigned from c.runner
+//     (the nothing-was-launched check); no goto / panic / os.Exit / runtime.Goexit above it;
+//   - the deferred body contains no `return`, its `c.clientWaitGroup.Wait()` is a top-level statement and its
+//     os.RemoveAll is top-level or directly inside a top-level `if D != ""` on the directory variable.
+func killCleanupWheneverRunner(kill *ast.FuncDecl) (bool, string) {
+	if kill == nil || kill.Body == nil {
+		return false, "no body"
+	}
+	runnerVars := map[string]bool{}
+	dirVars := map[string]bool{}
+	ast.Inspect(kill.Body, func(n ast.Node) bool {
+		as, ok := n.(*ast.AssignStmt)
+		if !ok || len(as.Lhs) != 1 || len(as.Rhs) != 1 {
+			return true
+		}
+		switch r := exprString(as.Rhs[0]); {
+		case r == "c.runner":
+			runnerVars[exprString(as.Lhs[0])] = true
+		case strings.HasSuffix(r, ".socketDir"):
+			dirVars[exprString(as.Lhs[0])] = true
+		}
+		return true
+	})
+	iDefer := -1
+	var body *ast.BlockStmt
+	for i, st := range kill.Body.List {
+		ds, ok := st.(*ast.DeferStmt)
+		if !ok {
+			continue
+		}
+		fl, ok := ds.Call.Fun.(*ast.FuncLit)
+		if !ok {
+			continue
+		}
+		if hasCall(fl.Body, "c.clientWaitGroup.Wait") || hasCall(fl.Body, "os.RemoveAll") {
+			iDefer, body = i, fl.Body
+			break
+		}
+	}
+	if iDefer < 0 {
+		return false, "no top-level deferred clean-up func"
+	}
+	allowedAtom := func(e ast.Expr) bool {
+		be, ok := e.(*ast.BinaryExpr)
+		if !ok || be.Op != token.EQL {
+			return false
+		}
+		x, y := exprString(be.X), exprString(be.Y)
+		if runnerVars[x] && y == "nil" {
+			return true
+		}
+		if ce, ok := be.X.(*ast.CallExpr); ok && len(ce.Args) == 0 && y == `""` {
+			if sel, ok := ce.Fun.(*ast.SelectorExpr); ok && sel.Sel.Name == "ID" && runnerVars[exprString(sel.X)] {
+				return true
+			}
+		}
+		return false
+	}
+	var allowedCond func(e ast.Expr) bool
+	allowedCond = func(e ast.Expr) bool {
+		if pe, ok := e.(*ast.ParenExpr); ok {
+			return allowedCond(pe.X)
+		}
+		if be, ok := e.(*ast.BinaryExpr); ok && be.Op == token.LOR {
+			return allowedCond(be.X) && allowedCond(be.Y)
+		}
+		return allowedAtom(e)
+	}
+	leaves := func(n ast.Node) (rets int, other string) {
+		ast.Inspect(n, func(m ast.Node) bool {
+			switch v := m.(type) {
+			case *ast.FuncLit:
+				return false
+			case *ast.ReturnStmt:
+				rets++
+			case *ast.BranchStmt:
+				if v.Tok == token.GOTO {
+					other = "goto"
+				}
+			case *ast.CallExpr:
+				switch exprString(v.Fun) {
+				case "panic", "os.Exit", "runtime.Goexit":
+					other = exprString(v.Fun)
+				}
+			}
+			return true
+		})
+		return
+	}
+	for _, st := range kill.Body.List[:iDefer] {
+		rets, other := leaves(st)
+		if other != "" {
+			return false, "leaves Kill above the defer through " + other
+		}
+		if rets == 0 {
+			continue
+		}
+		is, ok := st.(*ast.IfStmt)
+		if !ok || is.Init != nil || is.Else != nil || !allowedCond(is.Cond) {
+			return false, "return above the defer not guarded by the no-runner check only: " + stmtBrief(st)
+		}
+		// the `if` body is the return alone (anything else could only be more returns, counted above)
+	}
+	if rets, other := leaves(body); rets != 0 || other != "" {
+		return false, "the deferred clean-up func can return early"
+	}
+	waitTop, rmOK := false, false
+	for _, st := range body.List {
+		switch v := st.(type) {
+		case *ast.ExprStmt:
+			if ce, ok := v.X.(*ast.CallExpr); ok {
+				switch exprString(ce.Fun) {
+				case "c.clientWaitGroup.Wait":
+					waitTop = true
+				case "os.RemoveAll":
+					rmOK = true
+				}
+			}
+		case *ast.IfStmt:
+			if v.Init != nil || !hasCall(v.Body, "os.RemoveAll") {
+				continue
+			}
+			if be, ok := v.Cond.(*ast.BinaryExpr); ok && be.Op == token.NEQ && exprString(be.Y) == `""` &&
+				(dirVars[exprString(be.X)] || strings.HasSuffix(exprString(be.X), ".socketDir")) {
+				for _, inner := range v.Body.List {
+					if es, ok := inner.(*ast.ExprStmt); ok {
+						if ce, ok := es.X.(*ast.CallExpr); ok && exprString(ce.Fun) == "os.RemoveAll" {
+							rmOK = true
+						}
+					}
+				}
+			}
+		}
+	}
+	if !waitTop {
+		return false, "clientWaitGroup.Wait is not an unconditional statement of the deferred func"
+	}
+	if !rmOK {
+		return false, "os.RemoveAll is not reached whenever the directory variable is set"
+	}
+	return true, "defer is statement " + fmt.Sprint(iDefer) + " of Kill; only the no-runner return above it"
+}
+
+func stmtBrief(st ast.Stmt) string {
+	if is, ok := st.(*ast.IfStmt); ok {
+		return "if " + exprString(is.Cond)
+	}
+	return fmt.Sprintf("%T", st)
 }
 
 // helperClosesBroker: the function closes s.broker, directly or through a local copied from it.
